@@ -10,7 +10,7 @@ from .. import refcmd, refpdu
 from ..common import Violation, HarnessError, hyp_search, parallel, lib_frame
 
 LEVEL = 'exploration'
-SOURCES = ('bytes', 'bytesio', 'file', 'offset', 'gzip')
+SOURCES = ('bytes', 'bytesio', 'file', 'offset', 'gzip', 'bytesio-offset')
 PCIDS = [1, 2, 3, 4, 5, 63, 64, 127, 128, 129, 200, 253, 254, 255]
 
 
